@@ -1,6 +1,9 @@
 package main
 
 import (
+	"os/exec"
+	"context"
+	"bytes"
 	"encoding/json"
 	"flag"
 	"fmt"
@@ -342,6 +345,17 @@ func cmdCheck(args []string) int {
 	for _, a := range assumedContracts {
 		tb = append(tb, "assumed contract (body not verified): "+a)
 	}
+	boundedEv := []any{}
+	if *tier == "thorough" {
+		for _, b := range runBounded(prop) {
+			boundedEv = append(boundedEv, b.ev)
+			if !b.ok {
+				violations++
+				rp := writeReplay(prop, "bounded."+b.name, map[string]any{"obligation": "bounded stand-in " + b.name, "note": "a bounded differential check (not a proof obligation) failed on the real code; the failing statements are in the output", "go_test_output": b.out})
+				fmt.Printf("VIOLATION property=%s replay=%s\n", prop, rp)
+			}
+		}
+	}
 	level, _ := propLevel(prop)
 	ev := map[string]any{
 		"property_id": prop,
@@ -363,7 +377,7 @@ func cmdCheck(args []string) int {
 			"slowest":                       slow,
 			"cover_queries":                 map[string]int{"asked": nCover, "satisfiable_or_undecided": nCoverOK},
 			"known_findings":                knownEv,
-			"bounded":                       []any{},
+			"bounded":                       boundedEv,
 			"dropped_by_extraction":         droppedByExtraction,
 			"uncontracted_callees_havocked": sortedKeys(havocked),
 			"imprecise_operations":          sortedKeys(warnings),
@@ -480,4 +494,63 @@ func cmdReplay(args []string) int {
 	}
 	fmt.Println("REPLAY-NOT-CONFIRMED")
 	return 0
+}
+
+// Bounded stand-ins (thorough tier only; labelled bounded, never counted as proved): differential
+// tests of /verif/bounded run against the real package through -overlay, for the parts of a
+// property that no contract reaches yet.
+type boundedRes struct {
+	name string
+	ok   bool
+	out  string
+	ev   map[string]any
+}
+
+var boundedTests = map[string][]string{
+	"C03": {"TestKvcBoundedRowBatch"},
+	"C05": {"TestKvcBoundedAliasExpansion", "TestKvcBoundedAliasNames", "TestKvcBoundedRowBatch"},
+	"C09": {"TestKvcBoundedAggregates"},
+}
+
+func runBounded(prop string) []boundedRes {
+	tests := boundedTests[prop]
+	if len(tests) == 0 {
+		return nil
+	}
+	dir, err := os.MkdirTemp(filepath.Join(verifDir(), "out"), "bounded-")
+	if err != nil {
+		os.MkdirAll(filepath.Join(verifDir(), "out"), 0o755)
+		dir, _ = os.MkdirTemp(filepath.Join(verifDir(), "out"), "bounded-")
+	}
+	defer os.RemoveAll(dir)
+	repl := map[string]string{}
+	files, _ := filepath.Glob(filepath.Join(verifDir(), "bounded", "*_test.go"))
+	for _, f := range files {
+		repl[filepath.Join(repoDir(), filepath.Base(f))] = f
+	}
+	ov, _ := json.Marshal(map[string]any{"Replace": repl})
+	ovf := filepath.Join(dir, "overlay.json")
+	os.WriteFile(ovf, ov, 0o644)
+	var res []boundedRes
+	for _, tn := range tests {
+		ctx, cancel := context.WithTimeout(context.Background(), 180*time.Second)
+		cmd := exec.CommandContext(ctx, "bash", "-c", "cd "+repoDir()+" && go test -mod=mod -overlay "+ovf+" -vet=off -count=1 -timeout 120s -run '^"+tn+"$' .")
+		cmd.Env = append(os.Environ(), "GOFLAGS=-mod=mod", "GOPROXY=off", "GOSUMDB=off", "GOTOOLCHAIN=local")
+		var out bytes.Buffer
+		cmd.Stdout, cmd.Stderr = &out, &out
+		err := cmd.Run()
+		cancel()
+		o := out.String()
+		if len(o) > 8000 {
+			o = o[:8000] + "\n...[truncated]"
+		}
+		ok := err == nil && strings.Contains(o, "ok ") && !strings.Contains(o, "--- FAIL")
+		res = append(res, boundedRes{name: tn, ok: ok, out: o, ev: map[string]any{
+			"check":  tn + " (/verif/bounded, injected with go test -overlay)",
+			"kind":   "bounded differential test on the real package: NOT a proof",
+			"bound":  "stores of at most 40 pairs, batch sizes {1,2,3,5,7,32}, the statement list of the test",
+			"result": map[bool]string{true: "pass", false: "FAIL"}[ok],
+		}})
+	}
+	return res
 }
